@@ -771,7 +771,8 @@ def work(rep, args):
                     prev_next = e["dnext"] if e["dex"] == 1 and e["k"] == "protect" else None
         want = [(k, c) for k in ("protect", "unprotect", "clean") for c in range(5)]
         missing = [x for x in want if x not in crashes]
-        if missing or min(counters.values()) == 0:
+        if (missing or min(counters.values()) == 0) and not rep.violations:
+            # (with a violation at hand the verdict stands; a broken tree may well never reach a situation)
             raise MachineryError("situations never exercised: crash points %s, counters %s" % (missing, counters))
         if store_shapes != {EFFECTS}:
             rep.add_drift("_store performs the file-system effects %s, the model assumes %s" % (sorted(store_shapes), EFFECTS))
